@@ -94,6 +94,7 @@ func ruleDefer(c *Ctx, rule string, pkgs []*packages.Package) {
 					return true
 				}
 				results := namedErrorResults(info, ft)
+				checkDeferLocal(c, rule, info, n, body, results)
 				if len(results) == 0 {
 					return true
 				}
@@ -504,4 +505,68 @@ func nonNilErrTested(info *types.Info, cond ast.Expr) types.Object {
 		return nil
 	}
 	return obj
+}
+
+
+// checkDeferLocal: a deferred literal that assigns an error to a plain local variable of the enclosing
+// function (not a named result) cannot influence what the function returns: the return value was
+// already copied when deferred functions run. Tolerated when another deferred literal reads the variable.
+func checkDeferLocal(c *Ctx, rule string, info *types.Info, fn ast.Node, body *ast.BlockStmt, results []types.Object) {
+	p := c.P
+	isResult := func(o types.Object) bool {
+		for _, r := range results {
+			if r == o {
+				return true
+			}
+		}
+		return false
+	}
+	var lits []*ast.FuncLit
+	inspectNoFuncLit(body, func(x ast.Node) bool {
+		if ds, ok := x.(*ast.DeferStmt); ok {
+			if lit, ok := ast.Unparen(ds.Call.Fun).(*ast.FuncLit); ok {
+				lits = append(lits, lit)
+			}
+		}
+		return true
+	})
+	for _, lit := range lits {
+		ast.Inspect(lit.Body, func(x ast.Node) bool {
+			as, ok := x.(*ast.AssignStmt)
+			if !ok || as.Tok == token.DEFINE {
+				return true
+			}
+			for _, lhs := range as.Lhs {
+				o := identObj(info, lhs)
+				v, isVar := o.(*types.Var)
+				if !isVar || !isErrorType(v.Type()) || isResult(o) || v.IsField() {
+					continue
+				}
+				// declared in the enclosing function body, outside the literal
+				if !(v.Pos() >= body.Pos() && v.Pos() < body.End()) || (v.Pos() >= lit.Pos() && v.Pos() < lit.End()) {
+					continue
+				}
+				// parameters of the enclosing function are not subjects
+				readElsewhere := false
+				for _, other := range lits {
+					if other == lit {
+						continue
+					}
+					if usesObj(info, other.Body, o) {
+						readElsewhere = true
+					}
+				}
+				fd := p.EnclosingFuncDecl(fn)
+				fname := "?"
+				if fd != nil {
+					if pk := p.PkgOfPos(fd.Pos()); pk != nil {
+						fname = relPkg(pk.PkgPath) + "." + declName(fd)
+					}
+				}
+				c.Ob(rule, fname+"/deferred-store-to-local/"+v.Name(), as.Pos(), readElsewhere, true,
+					"a deferred function assigns an error to the local variable %s, which is not a named result: deferred functions run after the return value was fixed, so this error (e.g. of Close) can never reach the caller", v.Name())
+			}
+			return true
+		})
+	}
 }
